@@ -97,3 +97,59 @@ def PEER_OBJ(_cls="ipv8/peer.py::Peer", **extra):
              _addresses=EXPR("clean_dict()"))
     f.update(extra)
     return OBJ(_cls, **f)
+
+
+# ---------------------------------------------------------------------------------------------------------------------
+# asyncio model (assumption A7): futures are objects whose state changes are recorded as events; ensure_future only
+# schedules (the coroutine object is kept, it is not started).
+
+class FutureModel:
+    """asyncio.Future / Task: done-flag, cancellation and callbacks; running is left to the event loop (A7)."""
+
+    _isinstance = ("Future", "Task")      # the verifier treats instances as asyncio Futures / Tasks
+
+    def __init__(self, coro=None):
+        self.coro = coro
+        self._done = False
+        self._cancelled = False
+        self._result = None
+        self._callbacks = []
+
+    def done(self):
+        return self._done
+
+    def cancel(self):
+        emit("future.cancel", self)
+        if self._done:
+            return False
+        self._done = True
+        self._cancelled = True
+        return True
+
+    def cancelled(self):
+        return self._cancelled
+
+    def set_result(self, value):
+        emit("future.set_result", self, value)
+        self._done = True
+        self._result = value
+
+    def set_exception(self, exc):
+        emit("future.set_exception", self, exc)
+        self._done = True
+
+    def result(self):
+        return self._result
+
+    def add_done_callback(self, cb):
+        emit("future.add_done_callback", self, cb)
+        self._callbacks.append(cb)
+
+
+def ensure_future_model(coro):
+    emit("ensure_future", coro)
+    return FutureModel(coro)
+
+
+ASYNCIO_MODELS = {"asyncio.Future": "contracts.common.FutureModel", "asyncio.Task": "contracts.common.FutureModel",
+                  "asyncio.ensure_future": "contracts.common.ensure_future_model"}
